@@ -12,12 +12,15 @@ func init() {
 	register(&Property{
 		ID:         "C46",
 		Level:      "other",
-		Technique:  "writer/reader table agreement of the struct-tag codec (tokens, Kind mapping per token, cardinality words) with a reviewed exception table; attribute-copy completeness of the legacy extension descriptor against the tag parser; CFG dominance of fresh-child stores by a nil test in all singular message coders (static)",
-		Explain:    "Decides a structural necessary condition of `legacy and struct-tag-only messages behave like generated ones`: the struct-tag writer used by the generator (tag.Marshal) and the struct-tag reader used for legacy/aberrant messages (tag.Unmarshal) agree on the tag language: (1) every token the writer can emit is recognised by the reader (exception: `oneof`, which the reader derives from the oneof wrapper types); (2) for each wire-type token the reader can assign every Kind for which the writer emits that token (enum through the `enum=` token); (3) the cardinality words opt/req/rep map to the same Cardinality constants in both directions; (4) every attribute the tag reader can set on the scratch field is copied by ExtensionInfo.initFromLegacy into the derived extension descriptor from that field (exceptions listed), so what the tag says (packed, proto3, default, kind, cardinality) reaches the legacy extension; (5) every singular message/group coder of the table-driven decoder — including the fallback coder used for legacy and struct-tag-only child types — allocates a child only when the slot is nil and otherwise decodes into the existing child (merge semantics of repeated occurrences, as dynamicpb and the MessageInfo path).",
-		NotCovered: "cross-generation behaviour of legacy messages (reflection, codec) on values; aberrant message descriptor synthesis; default value text (C39).",
+		Technique:  "writer/reader table agreement of the struct-tag codec (tokens, Kind mapping per token, cardinality words) with a reviewed exception table; attribute-copy completeness of the legacy extension descriptor against the tag parser; CFG dominance of fresh-child stores by a nil test in all singular message coders; completeness of the option conversion against the option structs; ownership rule for retained element pointers (static)",
+		Explain:    "Decides a structural necessary condition of `legacy and struct-tag-only messages behave like generated ones`: the struct-tag writer used by the generator (tag.Marshal) and the struct-tag reader used for legacy/aberrant messages (tag.Unmarshal) agree on the tag language: (1) every token the writer can emit is recognised by the reader (exception: `oneof`, which the reader derives from the oneof wrapper types); (2) for each wire-type token the reader can assign every Kind for which the writer emits that token (enum through the `enum=` token); (3) the cardinality words opt/req/rep map to the same Cardinality constants in both directions; (4) every attribute the tag reader can set on the scratch field is copied by ExtensionInfo.initFromLegacy into the derived extension descriptor from that field (exceptions listed), so what the tag says (packed, proto3, default, kind, cardinality) reaches the legacy extension; (5) every singular message/group coder of the table-driven decoder — including the fallback coder used for legacy and struct-tag-only child types — allocates a child only when the slot is nil and otherwise decodes into the existing child (merge semantics of repeated occurrences, as dynamicpb and the MessageInfo path). Further: the options rebuilt for messages without a MessageInfo carry every option of the proto package, including the remaining recursion depth (found D32); legacyLoadMessageDesc's looks-generated guard tests every struct tag by which the struct-tag loader recognises a field; the lists whose element pointers the struct-tag loader retains are reserved up front (found D33).",
+		NotCovered: "cross-generation behaviour of legacy messages (reflection, codec) on values; the remaining details of aberrant descriptor synthesis (proto3 repeated scalars without a packed token, see DESIGN.md N16).",
 		Quick:      all("./internal/encoding/tag", "./internal/impl"),
 		Thorough:   all("./..."),
 		Run: func(c *Ctx) {
+			c.ruleOptionsForward("R-OPTIONS-FORWARD")
+			c.ruleLegacyGuardTags("R-LEGACY-GUARD-TAGS")
+			c.ruleStableElementPointers("R-STABLE-ELEMENT-POINTERS")
 			c.ruleTagTable("R-TAG-TABLE")
 			c.ruleLegacyExtCopy("R-LEGACY-EXT-COPY")
 			c.ruleSingularMsgReuse("R-SINGULAR-MSG-REUSE", 4)
